@@ -258,12 +258,13 @@ Definition stop_if_parent_gone (s : kstate) (u : nat) (self t : ref) : R :=
 Definition spawn (s : kstate) (u : nat) (self t : ref) (r : nat) : R :=
   let '(s1, inst) := provide s t in                      (* newActorContext: provider.Provide() *)
   let uid := length (actors s1) in                       (* the mailbox is created before Register *)
-  let s2 := set_actors s1 (actors s1 ++ [new_actor t self r inst]) in
-  match lookup t (registry s2) with
+  match lookup t (registry s1) with
   | Some _ =>
-      (* panic "actor ... already exists": the new object stays unregistered and unreachable *)
-      (s2, [], true)
+      (* panic "actor ... already exists": the new object is never registered, never launched and unreachable; its status
+         is never read — it is marked Terminated here so that "not registered" implies "terminated" in every state *)
+      (set_actors s1 (actors s1 ++ [w_st Terminated (new_actor t self r inst)]), [], true)
   | None =>
+      let s2 := set_actors s1 (actors s1 ++ [new_actor t self r inst]) in
       let s3 := set_registry s2 (set_key t uid (registry s2)) in
       let s4 := upd_actor s3 u (fun a => w_children (insert_sorted t (a_children a)) a) in
       stop_if_parent_gone (deliver_sys s4 t self SLaunch) u self t
